@@ -25,3 +25,7 @@ run 8770d99 C06
 run 77b5bb7 C13
 run 695264f C20
 run 859808a C02
+# The two data races below are visible to the race detector only (C19 thorough tier, every third case):
+#   MUTATE_FULL=1 is not needed; run: git -C /repo apply seeded/fixrev-02541ed/patch.diff; bin/verif check C19 --tier thorough; git -C /repo checkout -- .
+# run 02541ed C19   (thorough)
+# run 9e2b8a1 C19   (thorough)
